@@ -430,3 +430,145 @@ def triclinic_contract(fname):
 
 contract("C05", "mdtraj/geometry/src/geometry.cpp", "dist_mic_triclinic", cases=CASES, lang="c", replay="dist",
          covers=["pair-iteration", "finished"])(triclinic_contract("dist_mic_triclinic"))
+
+
+# ---------------------------------------------------------------------------------------------
+# Python dispatch: compute_distances_core chooses the kernel.  periodic and cell present => a minimum-image path;
+# the orthorhombic kernel is chosen iff EVERY frame's cell is orthogonal; the box is transposed exactly once.
+from mdvc.core import SBool  # noqa: E402
+from mdvc.pyinterp import Namespace, OpaqueModule  # noqa: E402
+from mdvc.tarr import TArr  # noqa: E402
+
+
+class BoxSeq:
+    """per-frame box vectors (F, 3, 3) as an opaque sequence of frames"""
+    is_ndarray = True
+
+    def __init__(self, F, transposed=0, copied=False):
+        self.F, self.transposed, self.copied = F, transposed, copied
+
+    def sym_len(self, interp):
+        return self.F
+
+    def sym_iter(self, interp):
+        return [BoxFrame(f) for f in range(self.F)]
+
+    def sym_getitem(self, interp, k):
+        if isinstance(k, int):
+            return BoxFrame(k)
+        raise core.Unsupported("BoxSeq index")
+
+    def sym_getattr(self, interp, name):
+        if name == "shape":
+            return (self.F, 3, 3)
+        if name == "ndim":
+            return 3
+        if name == "dtype":
+            return ("dtype", "float32")
+        if name == "transpose":
+            return lambda *axes: BoxSeq(self.F, self.transposed + (1 if tuple(axes) == (0, 2, 1) else 100), self.copied)
+        if name == "copy":
+            return lambda: BoxSeq(self.F, self.transposed, True)
+        raise core.Unsupported("BoxSeq." + name)
+
+
+class BoxFrame:
+    def __init__(self, f):
+        self.f = f
+
+    def sym_getitem(self, interp, k):
+        return ("boxrow", self.f, k)
+
+    def sym_iter(self, interp):
+        return [("boxrow", self.f, k) for k in range(3)]
+
+
+class Angles:
+    """angles of a set of frames; allclose(., 90) is the conjunction of the per-frame orthogonality facts"""
+    is_ndarray = True
+
+    def __init__(self, frames):
+        self.frames = tuple(frames)
+
+    def sym_getattr(self, interp, name):
+        if name == "T":
+            return self
+        raise core.Unsupported("Angles." + name)
+
+
+def ortho(f):
+    return z3.Bool(f"frame{f}-is-orthogonal")
+
+
+@contract("C05", "mdtraj/geometry/distance.py", "compute_distances_core", cases=[(p, c, o) for p in (True, False) for c in (True, False) for o in (True, False)],
+          replay="dist", covers=["kernel-called"])
+def distances_core(ctx, case):
+    periodic, have_cell, opt = case
+    from mdvc.npmodel import NumpyT
+    F = 2
+    calls = []
+
+    class NP(NumpyT):
+        def np_array(self, interp, x, *a, **k):
+            if isinstance(x, list) and x and all(isinstance(e, tuple) and e and e[0] == "angle" for e in x):
+                return Angles({e[1] for e in x})
+            if isinstance(x, list) and x and all(isinstance(e, Angles) for e in x):
+                return Angles(set().union(*[e.frames for e in x]))
+            return super().np_array(interp, x, *a, **k)
+
+        def np_allclose(self, interp, a, b, **k):
+            if isinstance(a, Angles) and b == 90:
+                return SBool(z3.And(*[ortho(f) for f in sorted(a.frames)]))
+            raise core.Unsupported("np.allclose")
+
+        def np_logical_and(self, interp, a, b):
+            from mdvc.tarr import TCond
+            return TCond(("and", getattr(a, "key", a), getattr(b, "key", b)))
+
+        def np_empty(self, interp, shape, **k):
+            return TArr(("empty", core.fresh_name("out")), shape=shape)
+
+        def np_ascontiguousarray(self, interp, a, dtype=None, **k):
+            if isinstance(a, BoxSeq):
+                return a
+            return super().np_ascontiguousarray(interp, a, dtype=dtype, **k)
+
+    im = ctx.interp.import_models
+    im["numpy"] = NP()
+    geom = Namespace("_geometry", _dist_mic=lambda *a: calls.append(("_dist_mic", a)), _dist=lambda *a: calls.append(("_dist", a)))
+    im["mdtraj.geometry"] = Namespace("geometry", _geometry=geom)
+
+    def b2la(interp, args, kwargs):
+        f = args[0][1]
+        ok = all(isinstance(r, tuple) and r[0] == "boxrow" and r[1] == f and r[2] == k for k, r in enumerate(args))
+        ctx.ex.require("angles-computed-from-the-three-vectors-of-one-frame", z3.BoolVal(ok))
+        return ("len", f, 0), ("len", f, 1), ("len", f, 2), ("angle", f, 0), ("angle", f, 1), ("angle", f, 2)
+
+    ctx.interp.call_models["mdtraj.utils.unitcell.box_vectors_to_lengths_and_angles"] = b2la
+    mod = ctx.module("mdtraj/geometry/distance.py")
+    mod.globals["_distance_mic"] = lambda *a: calls.append(("_distance_mic", a))
+    mod.globals["_distance"] = lambda *a: calls.append(("_distance", a))
+    xyz = TArr("xyz", shape=(F, 7, 3))
+    pairs = TArr("pairs", shape=(3, 2), dtype="int32")
+    box = BoxSeq(F) if have_cell else None
+    out = ctx.call(mod.globals["compute_distances_core"], xyz, pairs, unitcell_vectors=box, periodic=periodic, opt=opt)
+    if out.raised:
+        # only the documented index-range refusal
+        ctx.ensure("only-the-index-range-check-may-refuse", out.exc.name == "ValueError" and not calls)
+        return
+    ctx.cover("kernel-called")
+    ctx.ensure("exactly-one-kernel-call", len(calls) == 1)
+    if len(calls) != 1:
+        return
+    name, a = calls[0]
+    mic = periodic and have_cell
+    want = {(True, True): "_dist_mic", (True, False): "_distance_mic", (False, True): "_dist", (False, False): "_distance"}[(mic, opt)]
+    ctx.ensure("periodic-and-cell-present<=>minimum-image-path;opt-selects-the-native-kernel", name == want)
+    if mic and name in ("_dist_mic", "_distance_mic"):
+        b = a[2]
+        flag = a[4] if name == "_dist_mic" else a[3]
+        ctx.ensure("box-transposed-exactly-once", isinstance(b, BoxSeq) and b.transposed == 1)
+        ctx.ensure("orthorhombic-kernel-iff-EVERY-frame-is-orthogonal", core.as_bool_term(flag) == z3.And(*[ortho(f) for f in range(F)]))
+        if name == "_dist_mic":
+            ctx.ensure("native-kernel-gets-its-own-copy-of-the-box", b.copied)
+    ctx.ensure("coordinates-and-pairs-passed-unchanged", a[0] is xyz and a[1] is pairs)
